@@ -5,7 +5,8 @@ Functions under contract (emd/logger.py), executed from the real source on a gho
   sift_logger.add_logger.sift_logger (the logging decorator)
   set_level, get_level, enable, disable
 Ghost logger state (finite, explored exhaustively and symbolically): console handler present or absent; its level in
-{10,20,30,40,50}; logging.disable level.  Per-call verbosity in {absent, None, CRITICAL, WARNING, INFO, DEBUG}; the wrapped
+{10,20,30,40,50}; logging.disable level in {0, sys.maxsize} (enabled / emd.logger.disable()); level of the emd logger in
+{10,...,50} (Logger.isEnabledFor / getEffectiveLevel are modelled on these).  Per-call verbosity in {absent, None, CRITICAL, WARNING, INFO, DEBUG}; the wrapped
 function either returns r or raises E.
   inner_verbose: normal exit  => returns exactly r and the console level is what it was before the call;
                  exceptional  => propagates exactly E and the console level is what it was before the call;
@@ -24,7 +25,7 @@ PROPERTY = 'C20'
 LEVEL = 'proof'
 FUNCTIONS = ['emd.logger.wrap_verbose.inner_verbose', 'emd.logger.sift_logger.add_logger.sift_logger', 'emd.logger.set_level', 'emd.logger.get_level', 'emd.logger.enable', 'emd.logger.disable']
 ASSUMPTIONS = [
-    "assumed stdlib contract: logging.getLogger('emd').handlers is a list holding at most one handler named 'console'; Handler.level / setLevel / get_name; logging.disable(n) only sets the module-wide disable level; getattr(logging, NAME) / logging._levelToName are the standard level tables; log records never flow into data",
+    "assumed stdlib contract: logging.getLogger('emd').handlers is a list holding at most one handler named 'console'; Handler.level / setLevel / get_name; logging.disable(n) only sets the module-wide disable level; Logger.isEnabledFor(l) <=> l > disable level and l >= the logger's effective level; getattr(logging, NAME) / logging._levelToName are the standard level tables; log records never flow into data",
     'the wrapped sift is an arbitrary function that either returns a value or raises (it does not itself change the logger state)',
     'numerical non-interference of logging is a data-flow statement over the decorators (they return the wrapped result object itself); identity of results across logger states for the real sifts is checked by the bounded stand-in',
 ]
@@ -33,6 +34,10 @@ NOT_COVERED = ['set_up / set_format (logging.config.dictConfig, yaml) - bounded 
 LEVELS = {'CRITICAL': 50, 'ERROR': 40, 'WARNING': 30, 'INFO': 20, 'DEBUG': 10, 'NOTSET': 0}
 NAMES = {v: k for k, v in LEVELS.items()}
 LVL0 = z3.Int('lvl0')
+DISABLED = z3.Int('logging_disable_level')
+LOGGER_LEVEL = z3.Int('emd_logger_level')
+import sys as _sys_mod
+BIG = _sys_mod.maxsize
 
 
 class StubError(Exception):
@@ -71,6 +76,14 @@ class GhostLogger:
     @property
     def handlers(self):
         return [Handler(self.g, 'console')] if self.g['console'] else [Handler(self.g, None)]
+
+    def isEnabledFor(self, level):
+        # logging.Logger.isEnabledFor: not globally disabled at that level (logging.disable) and at or above the logger's effective level
+        dis = self.g['disabled']
+        return SBool(z3.And(lift(level) > lift(dis), lift(level) >= LOGGER_LEVEL))
+
+    def getEffectiveLevel(self):
+        return SInt(LOGGER_LEVEL)
 
     def __getattr__(self, k):
         if k in ('info', 'debug', 'warning', 'error', 'exception', 'critical'):
@@ -115,8 +128,11 @@ class LoggingShim:
 
 
 def _ghost(c, console):
-    g = {'console': console, 'lvl': SInt(LVL0), 'disabled': 0, 'writes': []}
+    # logging.disable(level) state: 0 (enabled) or sys.maxsize (emd.logger.disable()); the emd logger's own level: any standard level
+    g = {'console': console, 'lvl': SInt(LVL0), 'disabled': SInt(DISABLED), 'writes': []}
     c.assume(z3.Or(*[LVL0 == v for v in (10, 20, 30, 40, 50)]))
+    c.assume(z3.Or(DISABLED == 0, DISABLED == BIG))
+    c.assume(z3.Or(*[LOGGER_LEVEL == v for v in (10, 20, 30, 40, 50)]))
     c.ghost['g'] = g
     return g
 
@@ -227,7 +243,7 @@ def units(tier):
             def post(c, a, kw, r, console=console, name=name):
                 g = c.ghost['g']
                 c.oblige('post:level-set-iff-console', lift(g['lvl']) == (LEVELS[name] if console else LVL0), 'post')
-                c.oblige('post:frame', z3.BoolVal(g['disabled'] == 0 and g['console'] == console), 'post')
+                c.oblige('post:frame', z3.And(lift(g['disabled']) == DISABLED, z3.BoolVal(g['console'] == console)), 'post')
             U.append(Unit('set_level[console=%s,%s]' % (console, name), 'emd/logger.py', 'set_level', mk, post, module=EL, wrap_call=call))
 
         def mkg(c, console=console):
